@@ -6,8 +6,9 @@ import propbase
 import sweeprun
 
 ID = "C05"
-MODULE = "HttpcoreModel.Props.C05"
-THEOREMS = [f"Httpcore.C05.{n}" for n in sweeprun.C05_THEOREMS]
+MODULE = "HttpcoreModel.Props.C05Pool"      # imports Props.C05 (the Sys theorems)
+THEOREMS = [f"Httpcore.C05.{n}" for n in sweeprun.C05_THEOREMS + ["no_abandoned_after_pass", "quiescent_pool_all_idle", "source_reclaims_abandoned",
+                                                                   "reclaimed_is_unheld", "abandoned_survives_107", "abandoned_reclaimed_now"]]
 TRUSTED = [
     "Lean 4.33 kernel; axioms per theorem under coverage.theorems",
     "hand-written transition-system model Sys (pool + HTTP/1.1 connection life-cycle + callers with scope cancellation and faults), tied to the code by "
